@@ -107,3 +107,41 @@ func (enc *VP8Encoder) VerifReconPlanes() (w, h int, y, u, v []byte) {
 	}
 	return
 }
+
+// VerifFilterStrengths runs precomputeFilterStrengths on a decoder whose filter and
+// segment headers hold the given values and returns fstrengths as
+// [segment][i4x4]{FLimit, FILevel, HevThresh, FInner}.
+func VerifFilterStrengths(simple bool, level, sharpness int, useLFDelta bool, refDelta0, modeDelta0 int,
+	useSegment, absoluteDelta bool, segStrength [4]int) (out [4][2][4]int) {
+	dec := &Decoder{}
+	dec.filterHdr.Simple = simple
+	dec.filterHdr.Level = level
+	dec.filterHdr.Sharpness = sharpness
+	dec.filterHdr.UseLFDelta = useLFDelta
+	dec.filterHdr.RefLFDelta[0] = refDelta0
+	dec.filterHdr.ModeLFDelta[0] = modeDelta0
+	dec.segHdr.UseSegment = useSegment
+	dec.segHdr.AbsoluteDelta = absoluteDelta
+	for i := 0; i < 4; i++ {
+		dec.segHdr.FilterStrength[i] = int8(segStrength[i])
+	}
+	if level == 0 {
+		dec.filterType = 0
+	} else if simple {
+		dec.filterType = 1
+	} else {
+		dec.filterType = 2
+	}
+	dec.precomputeFilterStrengths()
+	for s := 0; s < 4; s++ {
+		for k := 0; k < 2; k++ {
+			f := dec.fstrengths[s][k]
+			inner := 0
+			if f.FInner {
+				inner = 1
+			}
+			out[s][k] = [4]int{int(f.FLimit), int(f.FILevel), int(f.HevThresh), inner}
+		}
+	}
+	return
+}
